@@ -7,7 +7,7 @@ CONSTANTS
   Acts = {"Scrape", "Exemplar", "Meta", "Delete", "Evict", "Truncate", "Restart"}
   Script <- NoScript
   PreCuts = {0, 1, 3}
-  MetaOrds = {"asc", "desc"}
+  MetaOrds = {"stream"}
   EmitMode = "none"
 INVARIANTS TypeOK C15All EmitWalk
 CHECK_DEADLOCK FALSE
